@@ -14,7 +14,7 @@ import json
 from fractions import Fraction
 
 from .. import core
-from ..core import Collector, FaultPlan, HarnessError, Log, Violation, ddmin_list, frac, norm_num, norm_units
+from ..core import Collector, FaultPlan, HarnessError, Log, Violation, ddmin_list, exc_name, frac, norm_num, norm_units
 from ..gen import DEC_FACTORS, RefTable, gen_general, mono_mul, mono_str, render_all, vec_key
 from ..questions import ask, unit_name_set
 
@@ -278,6 +278,14 @@ class SystemsWorld:
 
     def generate(self, streams, tier, index):
         kr = streams.get("knobs")
+        if index % 8 == 5:
+            # the bundled registry: a chunk of the seeded shuffle of all (unit, system) pairs
+            pr = streams.get("program")
+            fr = streams.get("faults")
+            return {"world": "systems", "prop": self.prop, "kind": "default", "chunk": index // 8,
+                    "knobs": {"numtype": kr.choice(["float", "float", "Fraction"]), "look_rate": 1.0},
+                    "prog_seed": pr.getrandbits(32),
+                    "faults": {"seed": fr.getrandbits(32), "rates": {"miss:base_units": fr.choice([0.0, 0.3, 1.0])}, "off": []}}
         spec = gen_spec(streams.get("world"))
         knobs = {"numtype": kr.choice(["float", "Fraction", "Fraction"]),
                  "look_rate": kr.choice([0.1, 0.25, 0.5, 1.0])}
@@ -294,6 +302,13 @@ class SystemsWorld:
                 "faults": {"seed": fr.getrandbits(32), "rates": rates, "off": []}}
 
     def run_case(self, case, col, log=None):
+        if case.get("kind") == "default":
+            try:
+                _DefaultRun(case, col, log or Log()).execute()
+            except Violation as v:
+                v.sig = f"{v.rule}/default"
+                return v
+            return None
         run = _Run(case, col, log or Log())
         try:
             run.setup()
@@ -304,6 +319,9 @@ class SystemsWorld:
         return None
 
     def sample(self, case):
+        if case.get("kind") == "default":
+            return {"index": case["index"], "kind": "default registry", "chunk": case["chunk"],
+                    "first_steps": _default_program(case)[:10]}
         return {"index": case["index"], "knobs": case["knobs"], "definitions": render_all(case["spec"]),
                 "program": case["program"], "fault_plan": case["faults"]}
 
@@ -315,7 +333,11 @@ class SystemsWorld:
                      "(add/remove units and groups, failing edits with the bad element at position k, groups, systems and "
                      "units created at run time) + forced misses of the base-unit memo. After every step all group and "
                      "system memberships are compared with a set model; base-unit results are compared with exact "
-                     "algebra on the declared rules and with a pristine registry built with system=S. "
+                     "algebra on the declared rules and with a pristine registry built with system=S. One run in eight uses the "
+                     "bundled registry instead: a chunk of the seeded shuffle of all (multiplicative unit, system) pairs (392 x 8, "
+                     "covered several times per batch) asked in four forms between default_system switches, compared with an "
+                     "independent reader of default_en.txt (sim/defs_reader.py: own evaluator, own rule inversion), plus all "
+                     "bundled group and system memberships. "
                      "distinct_nontrivial = distinct (step kind, outcome, default system set?, #edits so far (cap 3)) "
                      "with at least one earlier state change."),
             "trivial": lambda t: t.endswith("|0"),
@@ -330,6 +352,13 @@ class SystemsWorld:
         }
 
     def shrink(self, case):
+        if case.get("kind") == "default":
+            prog = case.get("program") or _default_program(case)
+            for cand in ddmin_list(prog):
+                yield dict(case, program=cand)
+            if case["faults"]["rates"]:
+                yield dict(case, faults=dict(case["faults"], rates={}))
+            return
         prog = case["program"]
         for cand in ddmin_list(prog):
             c = dict(case)
@@ -849,3 +878,129 @@ class _Run:
             g = d.get("got")
             return f"{v.rule}/{d.get('form')}/{'exc' if g and g[0] == 'exc' else 'value'}"
         return v.rule
+
+
+# =========================================================================== the bundled registry
+DEFAULT_CHUNK = 100
+_DEF = {}
+
+
+def _default_model():
+    if "m" not in _DEF:
+        import os
+
+        from ..defs_reader import DefaultSystemsModel, NumericTable
+
+        t = NumericTable.from_file(os.path.join(core.PINT_PATH, "pint", "default_en.txt"))
+        _DEF["m"] = DefaultSystemsModel(t)
+    return _DEF["m"]
+
+
+def _default_program(case):
+    if case.get("program") is not None:
+        return case["program"]
+    import random
+
+    m = _default_model()
+    units = [n for n in m.t.defs if m.t.names.units[n]["mult"]]
+    systems = sorted(m.systems) + [None]
+    pairs = [(u, sy) for u in units for sy in systems]
+    npass, k = divmod(case["chunk"] * DEFAULT_CHUNK, len(pairs))
+    random.Random(core.derive(case.get("seed", 0), "C14-pairs", npass)).shuffle(pairs)
+    chunk = (pairs + pairs)[k:k + DEFAULT_CHUNK]
+    rng = random.Random(case["prog_seed"])
+    prog = []
+    cur = "mks"
+    for i, (u, sy) in enumerate(chunk):
+        form = rng.choice(["to_base", "ito_base", "get_base", "get_base_sys", "get_base_sys"])
+        if form != "get_base_sys" and sy != cur:
+            prog.append({"id": len(prog) + 1, "k": "system", "name": sy})
+            cur = sy
+        st = {"id": len(prog) + 1, "k": "q_base", "form": form, "u": u, "x": rng.choice(["1", "3", "0.5"])}
+        if form == "get_base_sys":
+            st["system"] = sy
+        prog.append(st)
+        if rng.random() < 0.1:
+            prog.append(dict(rng.choice([p for p in prog if p["k"] == "q_base"]), id=len(prog) + 1))
+    return prog
+
+
+class _DefaultRun:
+    def __init__(self, case, col, log):
+        self.case, self.col, self.log = case, col, log
+        self.plan = FaultPlan(case["faults"])
+
+    def execute(self):
+        pint = core.import_pint()
+        m = _default_model()
+        T = NUMTYPES[self.case["knobs"]["numtype"]]
+        num = lambda x: int(x) if str(x).isdigit() else T(str(x))
+        ureg = pint.UnitRegistry(non_int_type=T)
+        core.install_flaky(ureg, self.plan, self.col)
+        cur = "mks"
+        self.check_members(ureg, m, "start")
+        for st in _default_program(self.case):
+            self.col.steps += 1
+            self.plan.at_step(st["id"])
+            core.install_flaky(ureg, self.plan, self.col)
+            if st["k"] == "system":
+                ureg.default_system = st["name"]
+                cur = st["name"]
+                self.col.fault("state_change:default_system")
+                continue
+            form, u = st["form"], st["u"]
+            # system=None means "the default system", not "no system"
+            system = (st.get("system") or cur) if form == "get_base_sys" else cur
+            try:
+                if form == "to_base":
+                    r = ureg.Quantity(num(st["x"]), u).to_base_units()
+                    gf, gu = r.magnitude, r._units
+                elif form == "ito_base":
+                    r = ureg.Quantity(num(st["x"]), u)
+                    r.ito_base_units()
+                    gf, gu = r.magnitude, r._units
+                elif form == "get_base":
+                    gf, uu = ureg.get_base_units(u)
+                    gu = uu._units
+                else:
+                    gf, uu = ureg.get_base_units(u, system=system)
+                    gu = uu._units
+            except Exception as e:
+                raise Violation("C14.base", st["id"], {"form": form, "u": u, "system": system, "got": ["exc", exc_name(e)]})
+            ef, eu = m.expected_base(u, system)
+            if form in ("to_base", "ito_base"):
+                ef = ef * float(frac(st["x"]))
+            got = {k: float(gu[k]) for k in gu}
+            self.col.checks += 1
+            ok = core.num_close(float(gf), float(ef), 1e-9) and set(got) == set(eu) and all(abs(got[k] - eu[k]) < 1e-9 for k in got)
+            self.col.trans("default", form, system, "ok" if ok else "bad")
+            self.log.ev(st["id"], form, u, system, float(gf))
+            if not ok:
+                raise Violation("C14.base", st["id"], {"form": form, "x": st["x"], "u": u, "system": system,
+                                                       "expected": [ef, sorted(eu.items())], "got": [float(gf), sorted(got.items())]})
+            # idempotent; value conserved
+            q2 = ureg.Quantity(gf, gu)
+            if form == "get_base_sys":
+                f3, u3 = ureg.get_base_units(gu, system=system)
+                again = (gf * f3, u3._units)
+            else:
+                r3 = q2.to_base_units()
+                again = (r3.magnitude, r3._units)
+            self.col.checks += 1
+            if not (core.num_close(float(again[0]), float(gf), 1e-9) and norm_units(again[1]) == norm_units(gu)):
+                raise Violation("C14.base-idempotent", st["id"], {"form": form, "u": u, "system": system,
+                                                                 "first": [float(gf), norm_units(gu)], "second": [float(again[0]), norm_units(again[1])]})
+        self.check_members(ureg, m, "end")
+
+    def check_members(self, ureg, m, why):
+        for g in m.groups:
+            self.col.checks += 1
+            got = set(ureg.get_group(g, False).members)
+            if got != m.members(g):
+                raise Violation("C14.members", why, {"group": g, "when": why, "missing": sorted(m.members(g) - got)[:10],
+                                                     "unexpected": sorted(got - m.members(g))[:10]})
+        for sy in m.systems:
+            self.col.checks += 1
+            got = set(ureg.get_system(sy, False).members)
+            if got != m.sys_members(sy):
+                raise Violation("C14.sysmembers", why, {"system": sy, "when": why})
